@@ -1,18 +1,66 @@
-/- Source tie for C11: `tournament_selection` as translated from /repo on this run equals the model
-   `Select.tournament` per tournament; `samples` = the successive results of the `random_sample`
-   calls (each non-empty, with indices into `fitness`). -/
+/- Source tie for C11: the three selection kernels of `utils/selections.py` as translated from /repo on
+   this run.  `tournament_selection` equals the model `Select.tournament` per tournament, where the
+   k-th tournament is what `random_sample(len(fitness), tour_size, replace=False)` returned —
+   `sampler n q replace k` is the result of the k-th call with those ARGUMENTS, so the theorem also
+   says which arguments the source passes.  `proportional_selection` / `rank_selection` return what
+   `random_weighted_sample(fitness | rank, quantity, replace=True)` returned. -/
 import TFV.Generated.Src.tournament_selection
+import TFV.Generated.Src.proportional_selection
+import TFV.Generated.Src.rank_selection
 import TFV.Model.Select
 import TFV.Lemmas.Src.Tournament
+import TFV.Properties.Src.Sampling
 
 namespace TFV.SrcTie
 open TFV.Generated.Src
 
 theorem C11_src_tournament_selection (fitness rank : List Int) (tourSize : Int) (q : Nat)
-    (samples : List (List Nat)) (hq : q ≤ samples.length) (hne : ∀ r ∈ samples, r ≠ [])
-    (hin : ∀ r ∈ samples, ∀ i ∈ r, i < fitness.length) :
-    tournament_selection fitness rank tourSize (q : Int) (samples.map fun r => r.map Int.ofNat) =
-      some ((samples.take q).map fun r => ((Select.tournament fitness r : Nat) : Int)) :=
-  src_tournament_selection fitness rank tourSize q samples hq hne hin
+    (sampler : Int → Int → Bool → Nat → List Int) (smp : Nat → List Nat)
+    (hs : ∀ k, k < q → sampler (fitness.length : Int) tourSize false k = (smp k).map Int.ofNat)
+    (hne : ∀ k, k < q → smp k ≠ [])
+    (hin : ∀ k, k < q → ∀ i ∈ smp k, i < fitness.length) :
+    tournament_selection fitness rank tourSize (q : Int) sampler =
+      some ((List.range q).map fun k => ((Select.tournament fitness (smp k) : Nat) : Int)) :=
+  src_tournament_selection fitness rank tourSize q sampler smp hs hne hin
+
+/-- fitness-proportional selection weighs by the FITNESS vector, with replacement, `quantity` draws -/
+theorem C11_src_proportional_selection (fitness rank : List Int) (tourSize q : Int)
+    (wsampler : List Int → Int → Bool → Nat → List Int) :
+    proportional_selection fitness rank tourSize q wsampler = some (wsampler fitness q true 0) := by
+  simp [proportional_selection]
+
+/-- rank selection weighs by the RANK vector, with replacement, `quantity` draws -/
+theorem C11_src_rank_selection (fitness rank : List Int) (tourSize q : Int)
+    (wsampler : List Int → Int → Bool → Nat → List Int) :
+    rank_selection fitness rank tourSize q wsampler = some (wsampler rank q true 0) := by
+  simp [rank_selection]
+
+/-- with `random_sample` as translated from the source: each tournament consists of `tour_size` DISTINCT
+    individuals, and the winner of each is the model's `Select.tournament` -/
+theorem C11_src_tournament_selection_distinct (fitness rank : List Int) (ts q : Nat) (hts : 1 ≤ ts)
+    (sampler : Int → Int → Bool → Nat → List Int) (ns smp : Nat → List Nat)
+    (hd : ∀ k, k < q → ∀ x ∈ ns k, x < fitness.length)
+    (hr : ∀ k, k < q → Select.sampleNoRepl (ns k) ts [] = some (smp k))
+    (hs : ∀ k, k < q → random_sample (fitness.length : Int) (ts : Int) false ((ns k).map Int.ofNat) =
+      some (sampler (fitness.length : Int) (ts : Int) false k)) :
+    tournament_selection fitness rank (ts : Int) (q : Int) sampler =
+      some ((List.range q).map fun k => ((Select.tournament fitness (smp k) : Nat) : Int)) ∧
+    ∀ k, k < q → (smp k).length = ts ∧ (smp k).Nodup ∧ ∀ i ∈ smp k, i < fitness.length := by
+  have key : ∀ k, k < q → sampler (fitness.length : Int) (ts : Int) false k = (smp k).map Int.ofNat ∧
+      (smp k).length = ts ∧ (smp k).Nodup ∧ ∀ i ∈ smp k, i < fitness.length := by
+    intro k hk
+    obtain ⟨he, hl, hnd, hlt⟩ :=
+      C11_src_random_sample_distinct fitness.length ts fitness.length (ns k) (smp k) (hd k hk) (hr k hk)
+    refine ⟨?_, hl, hnd, hlt⟩
+    have := hs k hk
+    rw [he] at this
+    exact (Option.some.inj this).symm
+  refine ⟨C11_src_tournament_selection fitness rank ts q sampler smp (fun k hk => (key k hk).1) ?_
+    (fun k hk => (key k hk).2.2.2), fun k hk => (key k hk).2⟩
+  intro k hk hnil
+  have := (key k hk).2.1
+  rw [hnil] at this
+  simp at this
+  omega
 
 end TFV.SrcTie
